@@ -140,7 +140,7 @@ func (e *Executor) RunTask(ctx context.Context, call *Call) error {
 		return err
 	}
 
-	if !e.Watch && atomic.AddInt32(e.taskCallCount[t.Task], 1) >= MaximumTaskCall {
+	if atomic.AddInt32(e.taskCallCount[t.Task], 1) >= MaximumTaskCall {
 		return &errors.TaskCalledTooManyTimesError{
 			TaskName:        t.Task,
 			MaximumTaskCall: MaximumTaskCall,
